@@ -2,7 +2,7 @@
 from pyrates.backend.parser import replace
 
 IDENT = "abcdefghijklmnopqrstuvwxyzABCDEFGHIJKLMNOPQRSTUVWXYZ0123456789_"
-TIMEOUTS = {'h_replace_ops3_t': 400, 'h_replace_ops3_q': 60, 'h_replace_ops2_t': 400, 'h_replace_ops2_q': 60, 'h_replace_ops1_t': 400, 'h_replace_ops1_q': 60, 'h_replace_q': 60, 'h_replace_t': 400}
+TIMEOUTS = {'h_replace_digit_q': 60, 'h_replace_digit_t': 400, 'h_replace_ops3_t': 400, 'h_replace_ops3_q': 60, 'h_replace_ops2_t': 400, 'h_replace_ops2_q': 60, 'h_replace_ops1_t': 400, 'h_replace_ops1_q': 60, 'h_replace_q': 60, 'h_replace_t': 400}
 
 
 def _isid(c: str) -> bool:
@@ -186,6 +186,48 @@ def twin_replace_ops3_t(eq: str, term: str) -> bool:
     pre: 1 <= len(term) <= 2 and len(eq) <= 4
     pre: all(c in "r" for c in term)
     pre: all(c in "r[]:<>!" for c in eq)
+    post: _
+    """
+    replace(eq, term, "Q")
+    return False
+
+
+def h_replace_digit_q(eq: str, term: str) -> bool:
+    """
+    pre: 1 <= len(term) <= 2 and len(eq) <= 3
+    pre: all(c in "re" for c in term)
+    pre: all(c in "re12+-" for c in eq)
+    post: _
+    """
+    return replace(eq, term, "Q") == ref_replace(eq, term, "Q")
+
+
+def twin_replace_digit_q(eq: str, term: str) -> bool:
+    """
+    pre: 1 <= len(term) <= 2 and len(eq) <= 3
+    pre: all(c in "re" for c in term)
+    pre: all(c in "re12+-" for c in eq)
+    post: _
+    """
+    replace(eq, term, "Q")
+    return False
+
+
+def h_replace_digit_t(eq: str, term: str) -> bool:
+    """
+    pre: 1 <= len(term) <= 2 and len(eq) <= 4
+    pre: all(c in "re" for c in term)
+    pre: all(c in "re12+-" for c in eq)
+    post: _
+    """
+    return replace(eq, term, "Q") == ref_replace(eq, term, "Q")
+
+
+def twin_replace_digit_t(eq: str, term: str) -> bool:
+    """
+    pre: 1 <= len(term) <= 2 and len(eq) <= 4
+    pre: all(c in "re" for c in term)
+    pre: all(c in "re12+-" for c in eq)
     post: _
     """
     replace(eq, term, "Q")
